@@ -52,6 +52,9 @@ def run(ctx: Ctx, rep: Report) -> None:
     # cached singletons hand (args, kwargs) back to pickle
     from .cached_pickle import newargs
     newargs(ctx, rep)
+    # no equality (or any other test) compares a field with itself
+    from ..rules.taut import rule_taut
+    rule_taut(ctx, rep, ('bqskit/',), 1000)
     reserved(ctx, rep, pdata)
     reduce_rule(ctx, rep)
     state_rule(ctx, rep)
